@@ -7,6 +7,7 @@ CONSTANTS
   MaxFaults = 1
   MaxRecs = 3
   WithFin = TRUE
+  ForeignAct = FALSE
   Foreign = {}
   FixGC = TRUE
   MidEnv = TRUE
